@@ -178,8 +178,17 @@ func formatCase(doc string, formats map[string]formatter.NumberFormat, opts form
 
 func formatCaseTree(doc string, j *ast.Journal, errs []parser.ParseError, formats map[string]formatter.NumberFormat,
 	opts formatter.Options, mut string) map[string]any {
+	return formatCaseEdits(doc, j, errs, formats, opts, mut, nil)
+}
+
+// formatCaseEdits: given != nil are edits obtained elsewhere (the textDocument/formatting handler
+// of a real server) for the same text, formats and options.
+func formatCaseEdits(doc string, j *ast.Journal, errs []parser.ParseError, formats map[string]formatter.NumberFormat,
+	opts formatter.Options, mut string, given []protocol.TextEdit) map[string]any {
 	var edits []protocol.TextEdit
-	if mut == "" {
+	if given != nil {
+		edits = given
+	} else if mut == "" {
 		// the real Server.Format path: parse, skip lines with errors, format
 		edits = server.VerifFormatText(doc, formats, opts)
 	} else {
@@ -244,6 +253,7 @@ func ndCase() map[string]any {
 // ---------------------------------------------------------------- generators
 
 type g5 struct {
+	noFormatDirs bool // no commodity / D directives in generated journals
 	r *rand.Rand
 	c *Ctx
 }
@@ -482,16 +492,27 @@ func (g *g5) posting() string {
 	if g.p(80) {
 		sb.WriteString(g.gap())
 		sb.WriteString(g.amount())
+		if g.p(4) {
+			// hledger syntax this project does not read (yet): a lot price, a cost in parentheses.
+			// Whatever the parser makes of it, formatting must not lose it.
+			sb.WriteString(g.ws() + g.of("{", "{=", "{{") + g.amount() + g.of("}", "}", "}}"))
+			g.c.Count("post.foreign.lot")
+		}
 		if g.p(15) {
-			sb.WriteString(g.ws() + g.of("@", "@@") + g.ws() + g.amount())
+			op := g.of("@", "@@")
+			if g.p(8) {
+				op = "(" + op + ")"
+				g.c.Count("post.foreign.cost")
+			}
+			sb.WriteString(g.ws() + op + g.ws() + g.amount())
 			g.c.Count("post.cost")
 		}
 		if g.p(15) {
-			sb.WriteString(g.ws() + g.of("=", "==") + g.ws() + g.amount())
+			sb.WriteString(g.ws() + g.assertOp() + g.ws() + g.amount())
 			g.c.Count("post.assert")
 		}
 	} else if g.p(20) {
-		sb.WriteString(g.gap() + g.of("=", "==") + g.ws() + g.amount())
+		sb.WriteString(g.gap() + g.assertOp() + g.ws() + g.amount())
 		g.c.Count("post.assertonly")
 	}
 	if g.p(25) {
@@ -506,6 +527,17 @@ func (g *g5) posting() string {
 		g.c.Count("post.trailingblank")
 	}
 	return sb.String()
+}
+
+// assertOp: `=` and `==`, and now and then hledger's subaccount-inclusive forms `=*` / `==*`,
+// which this project does not read (yet): if a line with one of them is understood at all, the
+// formatted line must still say the same.
+func (g *g5) assertOp() string {
+	if g.p(7) {
+		g.c.Count("post.foreign.assert")
+		return g.of("=*", "==*")
+	}
+	return g.of("=", "==")
 }
 
 var descrPool = []string{"grocery store", "Salary", "Rent | march", "payee|note", "Кафе", "😀 party", "x", "Gas & Oil", "café «Zoé»"}
@@ -607,7 +639,11 @@ func (g *g5) formatSample() (sym string, text string) {
 }
 
 func (g *g5) directive() []string {
-	switch g.n(10) {
+	x := g.n(10)
+	if g.noFormatDirs && x <= 4 {
+		x = 9
+	}
+	switch x {
 	case 0, 1, 2:
 		sym, f := g.formatSample()
 		g.c.Count("dir.commodity")
@@ -827,6 +863,9 @@ func genC05(c *Ctx) {
 			}
 			opts := g.options()
 			c.Emit("c05.format", formatCaseTree(doc, j, errs, formats, opts, ""))
+		}
+		if i == 0 {
+			genC05Handler(c, g)
 		}
 		if len(errs) == 0 {
 			c.Count("parse.clean")
